@@ -18,7 +18,8 @@
     ids <n>            => 1          harness: `verif_term(i).verif_id() == i` for all `i < n`;
                                      model: constant `1` (C07Store.id2re_identity)
     same_ptr <k>       => 1          harness: construction no. k re-issued after more history is
-                                     pointer-identical, `==` and has the same id as the first result;
+                                     pointer-identical, `==`, has the same id as the first result
+                                     and the re-issue allocated no term;
                                      model: constant `1` (C07Store.make_stable)
     prefix <k>         => 1          harness: mid-session dump no. k is a prefix of the session's final
                                      dump (ids keep their keys); model: constant `1` (C07Store.table_grows)
